@@ -323,6 +323,7 @@ def run(rep, facts, tier):
     rule_14_9(rep, fx)
     from rules import numberset as _ns
     _ns.rule_from_base_and_set(rep, fx, 'R14.11')
+    rule_14_12(rep, fx)
     if tier == 'thorough' and 'security' in facts:
         default_types = set(strip_generics(b.impl_self or '') for b in fx.bodies if b.name == 'len_serialized' and b.impl_self)
         rule_14_6(rep, facts['security'], pre='security:', skip=default_types)
@@ -627,3 +628,151 @@ def rule_14_9(rep, fx):
     rep.check(ok, 'R14.9', 'read_from_buffer/zero-length-kinds', 'empty for PAD and INFO_TS, rest of the message otherwise',
               'with octetsToNextHeader = 0 the parser treats as empty: %s (RTPS 9.4.5.1.3 says exactly PAD and INFO_TS): a zero-length INFO_TS or PAD in the middle of a message '
               'swallows every submessage after it, or a last submessage longer than 64 KiB is cut to nothing' % (names or 'nothing'), b.where())
+
+
+FLAGMOD = 'messages::submessages::submessage_flag::'
+
+
+def _is_eflag_of(t, pred):
+    """t = endianness_flag(X) with pred(X)"""
+    while t[0] in ('ref', 'deref') and isinstance(t[1], tuple):
+        t = t[1]
+    return t[0] == 'call' and t[1].endswith('submessage_flag::endianness_flag') and pred(t[2][0])
+
+
+def rule_14_12(rep, fx):
+    """The byte order of every multi-byte field of a submessage is the one its own header's E flag announces, on the writing and on the parsing side; the
+    ambient serialisation context of the enclosing message must not leak into a submessage body."""
+    rep.rule('R14.12', 'byte order follows the E flag: Submessage::write_to serialises the body under endianness_flag(own header.flags) (never under the caller\'s context); '
+                       'Submessage::read_from_buffer and the DATA/DATAFRAG cursor parsers read every element under endianness_flag(flags of the header just read); endianness_flag '
+                       'tests bit 0x01, which is the discriminant of the Endianness variant of every *_Flags enum, and from_endianness sets exactly that flag for LittleEndian; in the '
+                       'MessageBuilder every separately serialised element of a submessage uses the endianness its flags were built from')
+    # (a) writer
+    wb = [b for b in fx.bodies if b.name == 'write_to' and strip_generics(b.impl_self or '') == 'rtps::submessage::Submessage']
+    if len(wb) != 1:
+        raise CheckBroken('Submessage::write_to not found (%d)' % len(wb))
+    wb = wb[0]
+    rep.analysed(wb)
+    og = Origins(wb, summaries=False)
+    ctx_calls = [(bb, t) for bb, t in wb.calls() if callee_res(t).endswith('write_to_vec_with_ctx')]
+    ok = len(ctx_calls) == 1
+    if ok:
+        bb, t = ctx_calls[0]
+        subj = og.of_operand(t['args'][0], bb, 'term')
+        ctx = og.of_operand(t['args'][1], bb, 'term')
+        ok = has_field(subj, 'body') and _is_eflag_of(ctx, lambda x: has_field(x, 'flags') and has_field(x, 'header') and term_has(x, lambda z: z == ('param', 1)))
+    rep.check(ok, 'R14.12', 'Submessage::write_to/body-ctx', 'body.write_to_vec_with_ctx(endianness_flag(self.header.flags))',
+              'Submessage::write_to does not serialise the body under the byte order of its own header flag: a submessage whose E flag differs from the context the message is '
+              'written with announces one byte order and carries the other', wb.where())
+    leaks = [(bb, t) for bb, t in wb.calls() if callee_res(t).rsplit('::', 1)[-1] in ('write_value', 'write_to') and
+             any(has_field(og.of_operand(a, bb, 'term'), 'body') for a in t['args'][1:])]
+    rep.check(not leaks, 'R14.12', 'Submessage::write_to/no-context-leak', 'the body is never written with the ambient context',
+              'Submessage::write_to writes the body with the writer\'s ambient context (write_value): its byte order then depends on how the enclosing message is serialised, '
+              'not on the E flag in its header', wb.where(leaks[0][0]) if leaks else '')
+    # (b) submessage parser
+    rb = fx.find('rtps::submessage::Submessage::read_from_buffer')
+    rep.analysed(rb)
+    ogr = Origins(rb, summaries=False)
+    hdr_flags = lambda x: has_field(x, 'flags') and term_has(x, lambda z: z[0] == 'call' and z[1].endswith('read_from_buffer'))
+    n = 0
+    for bb, t in rb.calls():
+        cr = callee_res(t)
+        if cr.endswith(('read_from_buffer_with_ctx', 'read_from_stream_unbuffered_with_ctx', 'read_with_length_from_buffer_with_ctx')):
+            n += 1
+            ctx = ogr.of_operand(t['args'][0], bb, 'term')
+            okc = _is_eflag_of(ctx, hdr_flags)
+            rep.check(okc, 'R14.12', 'Submessage::read_from_buffer/%s' % strip_generics(t['f'].get('self_ty') or '?').rsplit('::', 1)[-1], 'parsed under endianness_flag(sub_header.flags)',
+                      'Submessage::read_from_buffer parses %s under a byte order that is not the one of the submessage header just read (%s)'
+                      % (t['f'].get('self_ty'), term_str(ctx)[:80]), rb.where(bb))
+        elif cr.endswith(('::read_from_buffer', '::read_from_stream_unbuffered')) and strip_generics(t['f'].get('self_ty') or '').startswith('messages::submessages::') and \
+                not strip_generics(t['f'].get('self_ty') or '').endswith('SubmessageHeader'):
+            n += 1
+            rep.violation('R14.12', 'Submessage::read_from_buffer/%s/no-ctx' % strip_generics(t['f'].get('self_ty') or '?').rsplit('::', 1)[-1],
+                          'Submessage::read_from_buffer parses %s with the default context instead of the byte order of the submessage header' % t['f'].get('self_ty'), rb.where(bb))
+        elif cr.endswith(('Data::deserialize_data', 'DataFrag::deserialize')):
+            n += 1
+            fl = ogr.of_operand(t['args'][1], bb, 'term')
+            rep.check(hdr_flags(fl), 'R14.12', 'Submessage::read_from_buffer/%s' % cr.rsplit('::', 2)[-2], 'gets the flags of the header just read',
+                      '%s is not given the flags of the submessage header just read' % cr, rb.where(bb))
+    rep.floor('R14.12', n, 11, 'body parsers called by Submessage::read_from_buffer')
+    # (c) cursor parsers
+    for nm in ('messages::submessages::data::Data::deserialize_data', 'messages::submessages::data_frag::DataFrag::deserialize'):
+        b = fx.find(nm)
+        rep.analysed(b)
+        ogb = Origins(b, summaries=False)
+        m = 0
+        bad = []
+        for bb, t in b.calls():
+            if callee_res(t).endswith(('_with_ctx',)):
+                m += 1
+                ctx = ogb.of_operand(t['args'][0], bb, 'term')
+                if not _is_eflag_of(ctx, lambda x: term_has(x, lambda z: z == ('param', 2))):
+                    bad.append(term_str(ctx)[:60])
+            elif callee_res(t).endswith(('::read_from_buffer', '::read_from_stream_unbuffered', '::read_from_stream_buffered')):
+                bad.append(callee_res(t))
+        rep.check(m >= 5 and not bad, 'R14.12', '%s/ctx' % nm.rsplit('::', 2)[-2], '%d reads, all under endianness_flag(flags)' % m,
+                  '%s reads an element under a byte order not derived from its flags argument: %s' % (nm.rsplit('::', 2)[-2] + '::' + nm.rsplit('::', 1)[-1], bad[:3]), b.where())
+    # (d) the flag bit
+    ef = fx.find(FLAGMOD + 'endianness_flag')
+    rep.analysed(ef)
+    oge = Origins(ef, summaries=False)
+    okd = False
+    for s_, t_, cond, lab in switch_edges(ef, fx, oge):
+        # Eq(BitAnd(flags, 1), 0): true -> BigEndian
+        if cond[0] == 'bin' and cond[1] == 'Eq':
+            sides = [cond[2], cond[3]]
+            band = [x for x in sides if x[0] == 'bin' and x[1] == 'BitAnd']
+            zero = [x for x in sides if x[0] == 'const' and str(x[2]) in ('0', '0u8')]
+            if band and zero and ('param', 1) in (band[0][2], band[0][3]) and any(x[0] == 'const' and str(x[2]).rstrip('u8') == '1' for x in (band[0][2], band[0][3])):
+                res = [st['rv'].get('variant') for st in ef.blocks[t_]['st'] if st['s'] == 'assign' and st['lhs']['l'] == 0 and st['rv']['r'] == 'agg']
+                if (lab is True and res == ['BigEndian']) or (lab is False and res == ['LittleEndian']):
+                    okd = True
+                else:
+                    okd = False
+                    break
+    rep.check(okd, 'R14.12', 'endianness_flag/bit0', '(flags & 1) == 0 => BigEndian, else LittleEndian', 'endianness_flag no longer maps bit 0x01 set to LittleEndian and clear to BigEndian', ef.where())
+    nflag = 0
+    for path, a in fx.adts.items():
+        if path.startswith(FLAGMOD) and path.endswith('_Flags') and a.get('kind') == 'enum':
+            names = [v['name'] for v in a['variants']]
+            if 'Endianness' in names:
+                nflag += 1
+                d = (a.get('discrs') or [])[names.index('Endianness')]
+                rep.check(d == 1, 'R14.12', '%s/Endianness=0x01' % path.rsplit('::', 1)[-1], 'discriminant 0x01', '%s::Endianness has the bit value %s, endianness_flag tests 0x01' % (path, d), '')
+    rep.floor('R14.12', nflag, 12, '*_Flags enums with an Endianness variant')
+    nfe = 0
+    for b in fx.bodies:
+        if b.name == 'from_endianness' and b.kind in ('fn', 'assoc_fn'):
+            nfe += 1
+            ogf = Origins(b, summaries=False)
+            okf = False
+            for s_, t_, cond, lab in switch_edges(b, fx, ogf):
+                if cond[0] == 'call' and cond[1].endswith('::eq') and term_has(cond, lambda z: z == ('param', 1)) and lab is True:
+                    little = term_has(cond, lambda z: z[0] in ('agg', 'const') and 'LittleEndian' in str(z))
+                    sets = [st['rv'].get('variant') for st in b.blocks[t_]['st'] if st['s'] == 'assign' and st['rv']['r'] == 'agg']
+                    okf = little and sets == ['Endianness']
+            rep.check(okf, 'R14.12', 'from_endianness/%s' % (b.impl_self or '?').rstrip('>').rsplit('::', 1)[-1], 'LittleEndian => {Endianness}, else empty',
+                      '%s does not set exactly the Endianness flag for LittleEndian' % b.key, b.where())
+    rep.floor('R14.12', nfe, 12, 'from_endianness implementations')
+    # (e) builders: separately serialised elements use the endianness the flags are built from
+    nb = 0
+    for b in fx.bodies:
+        if not b.key.startswith('rtps::message::MessageBuilder::') or b.kind not in ('fn', 'assoc_fn'):
+            continue
+        ogb = Origins(b, summaries=False)
+        fl = [ogb.of_operand(t['args'][0], bb, 'term') for bb, t in b.calls() if callee_res(t).endswith('from_endianness')]
+        cx = [(bb, ogb.of_operand(t['args'][1], bb, 'term')) for bb, t in b.calls() if callee_res(t).endswith('write_to_vec_with_ctx')]
+        for c in fx.closures_of(b):
+            ogc = Origins(c, summaries=False)
+            from rdv.core import resolve_captures
+            cx += [(None, resolve_captures(fx, c, ogc.of_operand(t['args'][1], bb, 'term'), summaries=False)) for bb, t in c.calls() if callee_res(t).endswith('write_to_vec_with_ctx')]
+        if not cx:
+            continue
+        rep.analysed(b)
+        for bb, c in cx:
+            nb += 1
+            okb = bool(fl) and all(c == f for f in fl)
+            rep.check(okb, 'R14.12', 'MessageBuilder::%s/element-ctx#%d' % (b.name, nb), 'element serialised under the endianness the flags are built from',
+                      'MessageBuilder::%s serialises an element of the submessage under %s while its flags are built from %s' % (b.name, term_str(c)[:60], [term_str(f)[:40] for f in fl][:2]),
+                      b.where(bb) if bb is not None else b.where())
+    rep.floor('R14.12', nb, 2, 'separately serialised submessage elements in MessageBuilder')
